@@ -97,8 +97,8 @@ class C14(Prop):
     min_frames = 0
     regions = {'quick': [('all', 200), ('core', 60), ('block', 40), ('routers', 40), ('renege', 40), ('preempt', 40), ('sched', 40), ('schedpre', 40),
                          ('slotted', 30), ('slotted_pre', 20), ('dyn', 40), ('ps', 30), ('renege_preempt', 30), ('prio_reroute', 20), ('sched_reroute', 20),
-                         ('preempt_block', 20), ('sched_block', 20), ('schedpre_block', 20), ('renege_dyn', 30), ('renege_schedpre', 20), ('jsq_preempt', 20)]}
-    rule = ('one case = one observed run consisting of one or two simulate_until_max_time / simulate_until_max_customers calls (all four '
+                         ('preempt_block', 20), ('sched_block', 20), ('schedpre_block', 20), ('renege_dyn', 30), ('renege_schedpre', 20), ('jsq_preempt', 20), ('sched_dyn', 60), ('core_mix', 40), ('block_mix', 20), ('batch_mix', 30)]}
+    rule = ('one case = one observed run consisting of one to three simulate_until_max_time / simulate_until_max_customers calls (all four '
             'methods, horizons including 0) on a generated network from every feature region; non-trivial = the network combines >= 3 '
             'optional features and >= 5 events were executed; distinct = distinct configuration hashes')
     clause_text = {180: 'the call raised an internal error', 181: 'an event scheduled at or after T was executed', 182: 'an event scheduled before T was left unexecuted',
@@ -124,6 +124,17 @@ class C14(Prop):
             if r1[0] == 'time' and r2[0] == 'time' and r2[1] < r1[1]:
                 r2[1] = r1[1] + rng.choice([0, 3, 10])
             cfg['run'] = [r1, r2]
+            if rng.random() < 0.45:
+                # a third call (e.g. max_time, max_customers, max_time): whatever one call leaves behind must not mislead the next
+                r3 = one()
+                tmax = max([r[1] for r in (r1, r2) if r[0] == 'time'] or [0])
+                if r3[0] == 'time' and r3[1] < tmax:
+                    r3[1] = tmax + rng.choice([0, 3, 10, 30])
+                cfg['run'] = [r1, r2, r3]
+                if rng.random() < 0.5:
+                    # the mixed pattern: a horizon, then a count that makes the engine run on, then a later horizon
+                    t1 = rng.choice([7, 20, 40])
+                    cfg['run'] = [['time', t1], ['cust', rng.choice([2, 5, 9, 14]), rng.choice(METHODS)], ['time', t1 + rng.choice([10, 30, 60, 100])]]
         else:
             cfg['run'] = [r1]
         cfg['max_frames'] = 1500
